@@ -15,6 +15,7 @@ import (
 	"time"
 
 	corev1 "k8s.io/api/core/v1"
+	schedulingv1 "k8s.io/api/scheduling/v1"
 	apierrors "k8s.io/apimachinery/pkg/api/errors"
 	"k8s.io/apimachinery/pkg/api/meta"
 	metav1 "k8s.io/apimachinery/pkg/apis/meta/v1"
@@ -440,6 +441,17 @@ func (s *SimAPI) PodGroups() []*schedv2alpha2.PodGroup {
 func (s *SimAPI) Queues() []*schedv2.Queue {
 	l := s.list(QueueGVR, "Queue", "").(*schedv2.QueueList)
 	out := make([]*schedv2.Queue, 0, len(l.Items))
+	for i := range l.Items {
+		out = append(out, &l.Items[i])
+	}
+	sort.Slice(out, func(i, j int) bool { return out[i].Name < out[j].Name })
+	return out
+}
+
+func (s *SimAPI) PriorityClasses() []*schedulingv1.PriorityClass {
+	gvr := schema.GroupVersionResource{Group: "scheduling.k8s.io", Version: "v1", Resource: "priorityclasses"}
+	l := s.list(gvr, "PriorityClass", "").(*schedulingv1.PriorityClassList)
+	out := make([]*schedulingv1.PriorityClass, 0, len(l.Items))
 	for i := range l.Items {
 		out = append(out, &l.Items[i])
 	}
